@@ -86,6 +86,10 @@ pub fn oracle(spec_: &RespSpec, m: &Mutated, head_len: usize, case: &RespCase, o
             Ev::Panic => unreachable!(),
         }
     }
+    // what write_to() had put into the caller's sink when it failed is handed out too
+    if !out.partial.is_empty() && !exp.payload.starts_with(&out.partial) {
+        return Err((format!("fabricated-{}", tag), format!("write_to() wrote {} bytes that are not a prefix of the payload that arrived ({} B)", out.partial.len(), exp.payload.len())));
+    }
     if (!complete || err_inside) && !saw_err {
         return Err((format!("no-error-{}", tag), format!("schedule drained without any error although frame is {:?} / injected error inside the frame: {}", exp.end, err_inside)));
     }
@@ -265,7 +269,7 @@ pub fn generate(seed: u64, tier: &str, sink: &mut Sink) {
             for m in muts {
                 let payload_len = m.arrived.len();
                 let reads = if rng.chance(1, 5) {
-                    Reads::Drain(8192)
+                    Reads::Drain(*rng.pick(&[crate::resp::DRAIN_BYTES, crate::resp::DRAIN_WRITE_TO, crate::resp::DRAIN_SPLIT]))
                 } else {
                     let (ns, _) = read_schedule(&mut rng, payload_len.min(4000), crate::p_c01::pieces(&spec_, m.segs.len(), max_buf));
                     Reads::Sizes(ns)
